@@ -6,6 +6,7 @@ import (
 	"fmt"
 
 	rbytes "github.com/teivah/majorana/common/bytes"
+	"github.com/teivah/majorana/risc"
 )
 
 // C16 — word encoding is a little-endian bijection on all 32-bit values.
@@ -41,18 +42,50 @@ func c16One(n int32) (string, string) {
 	if back != q {
 		return "wrong-roundtrip", fmt.Sprintf("BytesFromLowBits(I32FromBytes(%v))=%v", q, back)
 	}
+	// storing the word and loading it back through the instruction layer
+	c16Ctx.Registers[risc.T0] = n
+	exe, err := c16Sw.Run(c16Ctx, nil, 0, nil, 0)
+	if err != nil || !exe.MemoryChange || len(exe.MemoryChanges) != 4 {
+		return "wrong-store", fmt.Sprintf("sw of %#x: %v %+v", uint32(n), err, exe)
+	}
+	var mem [4]int8
+	for i := int32(0); i < 4; i++ {
+		b, ok := exe.MemoryChanges[i]
+		if !ok || byte(b) != want[i] {
+			return "wrong-store", fmt.Sprintf("sw of %#x writes %v, want byte %d = %#x", uint32(n), exe.MemoryChanges, i, want[i])
+		}
+		mem[i] = b
+	}
+	lexe, err := c16Lw.Run(c16Ctx, nil, 4, mem[:], 0)
+	if err != nil || !lexe.RegisterChange || lexe.Register != risc.T1 || lexe.RegisterValue != n {
+		return "wrong-load", fmt.Sprintf("lw of the bytes stored for %#x returns %#x", uint32(n), uint32(lexe.RegisterValue))
+	}
 	return "ok", ""
+}
+
+var (
+	c16Ctx = risc.NewContext(false, 16, false)
+	c16Sw  risc.InstructionRunner
+	c16Lw  risc.InstructionRunner
+)
+
+func init() {
+	app, err := risc.Parse("sw t0, 0(zero)\nlw t1, 0(zero)")
+	if err != nil {
+		panic(err)
+	}
+	c16Sw, c16Lw = app.Instructions[0], app.Instructions[1]
 }
 
 func init() {
 	register("C16", &Check{
 		Shards: func(tier string) int { return 64 },
 		Run: func(c *RunCtx) {
-			c.Sum.Rule = "IX: every int32 n of the tier's domain; split, join and round trip compared with encoding/binary little-endian; every value is enumerated once; a case is non-trivial when n has at least two different bytes (so byte order is observable); states = values enumerated, transitions = calls into common/bytes"
+			c.Sum.Rule = "IX: every int32 n of the tier's domain; split, join and round trip compared with encoding/binary little-endian, and the word stored by `sw` (Run) and loaded back by `lw` (Run) unchanged; every value is enumerated once; a case is non-trivial when n has at least two different bytes (so byte order is observable); states = values enumerated, transitions = calls into common/bytes"
 			reported := 0
 			one := func(n int32) {
 				c.Sum.Evaluations++
-				c.Sum.Transitions += 3
+				c.Sum.Transitions += 5
 				u := uint32(n)
 				if byte(u) != byte(u>>8) || byte(u) != byte(u>>16) || byte(u) != byte(u>>24) {
 					c.Sum.Nontrivial++
